@@ -555,7 +555,7 @@ def compile_time_partial_ops(ctx):
                 if isinstance(a, ast.If) and ('isfinite' in unparse(a.test)
                                               or 'isinf' in unparse(a.test)):
                     guarded = True
-            construct = f'{f.file}:QvmCode.optimize:round({c.args[0].id})'
+            construct = f'{f.file}:QvmCode.optimize:round(push-operand)'
             ctx.instance(rule, construct, sample={'guarded': guarded})
             if not guarded:
                 ctx.finding(rule, construct,
